@@ -16,6 +16,8 @@ from .common import doc
 
 
 def same_outcome(a: Obs, b: Obs, strict_order: bool = True) -> Optional[str]:
+    if a.rc.reused:
+        return "node_instance_reused:%s" % a.rc.reused[0]
     if a.kind != b.kind:
         return "kind:%s/%s" % (a.kind, b.kind)
     if a.kind == "done":
